@@ -46,9 +46,10 @@ fn panic_class(msg: &str) -> String {
     s
 }
 
-/// header text HTTP can carry: visible ASCII (and inner spaces)
-fn header_deliverable(call: &CallRec, meta: &EpMeta) -> bool {
+/// header arguments whose text HTTP cannot carry (not visible ASCII)
+fn undeliverable_headers(call: &CallRec, meta: &EpMeta) -> Vec<String> {
     let off = if matches!(meta.auth, crate::ir::Auth::None) { 0 } else { 1 };
+    let mut v = Vec::new();
     for (i, a) in meta.args.iter().enumerate() {
         if a.kind == PKind::Header {
             let ok = match call.args[i + off].val.json_value() {
@@ -56,11 +57,36 @@ fn header_deliverable(call: &CallRec, meta: &EpMeta) -> bool {
                 _ => true,
             };
             if !ok {
-                return false;
+                v.push(a.name.clone());
             }
         }
     }
-    true
+    v
+}
+
+fn header_deliverable(call: &CallRec, meta: &EpMeta) -> bool {
+    undeliverable_headers(call, meta).is_empty() && !huge_uri(call, meta)
+}
+
+/// path/query text so long that the encoded URI may exceed what `http::Uri` can hold
+/// (65534 bytes); building then reports an error, which the statement allows
+fn huge_uri(call: &CallRec, meta: &EpMeta) -> bool {
+    fn text_len(v: &Value) -> usize {
+        match v {
+            Value::String(s) => s.len(),
+            Value::Array(a) => a.iter().map(text_len).sum(),
+            _ => 24,
+        }
+    }
+    let off = if matches!(meta.auth, crate::ir::Auth::None) { 0 } else { 1 };
+    let total: usize = meta
+        .args
+        .iter()
+        .enumerate()
+        .filter(|(_, a)| matches!(a.kind, PKind::Path | PKind::Query))
+        .map(|(i, _)| text_len(&call.args[i + off].val.json_value()))
+        .sum();
+    total > 16_000
 }
 
 fn within_limit(exchanges: &[Exchange], call: usize, meta: &EpMeta) -> bool {
@@ -641,10 +667,12 @@ fn c19(ctx: &Ctx, calls: &[CallRec], exchanges: &[Exchange]) {
                         .iter()
                         .find(|(k, _)| k == "param")
                         .and_then(|(_, v)| serde_json::from_str::<String>(v).ok());
+                    let opaque = undeliverable_headers(call, meta);
                     let ok = rejects.iter().any(|f| match &f.expect {
                         Expect::Reject { code, param } => e.code == *code && (param.is_none() || *param == got_param),
                         _ => false,
-                    }) || (body_damage && e.code == "InvalidArgument");
+                    }) || (body_damage && (e.code == "InvalidArgument" || e.marker.is_some()))
+                        || (e.code == "InvalidArgument" && got_param.as_ref().map(|p| opaque.contains(p)).unwrap_or(false));
                     if !ok {
                         let code_ok = rejects.iter().any(|f| matches!(&f.expect, Expect::Reject { code, .. } if e.code == *code));
                         if !code_ok {
@@ -982,7 +1010,20 @@ fn c18(ctx: &Ctx, calls: &[CallRec], exchanges: &[Exchange]) {
                 }
             }
             (WantC::OkHandler, CallResult::Ok(v)) => {
-                if !call.ret.eq_dyn(&**v) {
+                // with several calls in flight on one endpoint the scripted returns may be
+                // consumed in another order; C04 matches those, here the body is the reference
+                let reference = if calls.len() > 1 {
+                    std::str::from_utf8(&eff).ok().and_then(|s| glue_gen::ret_from_json(call.ep, s))
+                } else {
+                    None
+                };
+                let expected: &dyn DynVal = match &reference {
+                    Some(r) => &**r,
+                    None => &*call.ret,
+                };
+                if calls.len() > 1 && reference.is_none() {
+                    // nothing to compare against
+                } else if !expected.eq_dyn(&**v) {
                     ctx.violation(
                         "C18",
                         format!("client_value_differs:{}:{}", meta.ret_kind_name(), faults),
